@@ -63,6 +63,10 @@ def run():
         a = ses.rnd.choice(rooted) if rooted and ses.rnd.random() < 0.7 else ses.rnd.choice(texts)
         b = ses.rnd.choice(rooted) if rooted and ses.rnd.random() < 0.5 else ses.rnd.choice(texts)
         pairs.append(([a, b], ses.rnd.choice(["text", "glob", "nested"])))
+        # nested: any([any([a]), any([b, c])]) with an inner combinator that mixes rooted and unrooted
+        c = ses.rnd.choice(texts)
+        pairs.append(([a, b, c], "nested"))
+        pairs.append(([a, c, b], "nested"))
     anyrows = probe([{"op": "any", "pats": p, "mode": m} for p, m in pairs])
     targets = [(r["text"], {"glob": r["text"]}, r["row"]) for r in recs]
     for (p, m), row in zip(pairs, anyrows):
